@@ -4,7 +4,7 @@
    from the freshly generated derived.gen.go. *)
 From Coq Require Import List NArith.
 Import ListNotations.
-From Verif Require Import Chan.Sem Chan.Expected Chan.Lemmas Chan.FmapProofs Chan.DupProofs Chan.JoinCC Chan.JoinCCLive Chan.JoinSl Chan.JoinSlLive Chan.Explore Chan.Bounded Chan.EnabledComplete Chan.Pipe Chan.PipeLive Chan.JoinVar Chan.JoinVarLive Chan.JoinVarLive2 Chan.Feeder.
+From Verif Require Import Chan.Sem Chan.Expected Chan.Lemmas Chan.FmapProofs Chan.DupProofs Chan.JoinCC Chan.JoinCCLive Chan.JoinSl Chan.JoinSlLive Chan.Explore Chan.Bounded Chan.EnabledComplete Chan.Pipe Chan.PipeLive Chan.JoinVar Chan.JoinVarLive Chan.JoinVarLive2 Chan.Feeder Chan.Alias.
 
 (* ---------------- deriveFmap(f, <-chan) ---------------- *)
 Theorem C19_fmap_safety : forall (f : item -> item) xs cin cout s,
@@ -307,3 +307,21 @@ Theorem C19_join_feeder_bounded_partial :
    none_found (feeder_all KJoinVar (exp_join_var 3) (configs_n 3 [1] [0] [0]) 2000) = true).
 Proof. exact (conj joincc_feeder_bounded (conj joinsl_feeder_bounded joinvar_feeder_bounded)). Qed.
 Print Assumptions C19_join_feeder_bounded_partial.
+
+(* ---------------- inputs that are not pairwise distinct channels (bounded) ---------------- *)
+(* The same channel may be given to a join more than once (twice on the channel of channels, twice in the
+   slice, for two parameters of the variadic form, returned twice by the second stage of a pipeline): the
+   expected IR then runs several receivers on it ([init_alias]: init_state with the hand-over sequence in
+   place of the identity).  The all-sizes theorems above are about pairwise distinct channels; for shared
+   channels only this bounded statement is proved: every interleaving of the listed configurations (one
+   channel given two or three times, shared next to unshared channels in every position, 0..2 items,
+   buffered and unbuffered) ends with every item delivered exactly once, the output closed, nobody left, no
+   panic (the WaitGroup counter in particular), and per channel the order preserved by each of its receivers
+   ([alias_spec]: at most k increasing subsequences for a channel given k times). *)
+Theorem C19_join_shared_channels_bounded_partial :
+  none_found' (alias_some KJoinCC exp_join_cc alias_cases_cc 2000) = true /\
+  none_found' (alias_some KJoinSl exp_join_sl alias_cases_sl 2000) = true /\
+  none_found' (alias_some KJoinVar (exp_join_var 2) alias_cases_v2 2000) = true /\
+  none_found' (alias_some KJoinVar (exp_join_var 3) alias_cases_v3 2000) = true.
+Proof. exact join_alias_bounded. Qed.
+Print Assumptions C19_join_shared_channels_bounded_partial.
